@@ -170,7 +170,7 @@ fn gen_stmt(rng: &mut Rng, m: &Model, next_id: &mut i64, next_col: &mut i64) -> 
             n.ixs.remove(&iname);
             mk(sql, "drop-index", Expect::Accept(n))
         }
-        12 | 13 if regular => {
+        12 | 13 => {
             *next_col += 1;
             let c = format!("X{}", *next_col % 4);
             let default = if rng.chance(1, 2) { Some(rng.range(1, 9)) } else { None };
@@ -192,7 +192,7 @@ fn gen_stmt(rng: &mut Rng, m: &Model, next_id: &mut i64, next_col: &mut i64) -> 
                 }
             }
         }
-        14 | 15 if regular => {
+        14 | 15 => {
             let tab = m.tabs.get(&tname);
             let col = match tab {
                 Some(t) if t.cols.len() > 1 => t.cols[1 + rng.usize(t.cols.len() - 1)].clone(),
@@ -223,7 +223,7 @@ fn gen_stmt(rng: &mut Rng, m: &Model, next_id: &mut i64, next_col: &mut i64) -> 
                 }
             }
         }
-        16 if regular => {
+        16 => {
             let cname = format!("K{}", rng.below(2));
             let tab = m.tabs.get(&tname);
             let unique = rng.chance(1, 2);
@@ -253,7 +253,7 @@ fn gen_stmt(rng: &mut Rng, m: &Model, next_id: &mut i64, next_col: &mut i64) -> 
                 }
             }
         }
-        17 if regular => {
+        17 => {
             let cname = format!("K{}", rng.below(2));
             let sql = format!("ALTER TABLE {} DROP CONSTRAINT {}", ttok, cname.to_lowercase());
             match m.tabs.get(&tname) {
